@@ -386,6 +386,12 @@ def rule_LS(run: Run) -> RuleResult:
     reg = ov.methods.get("register")
     if reg is None:
         raise AnalysisError("Overloaded.register not found")
+    held_r = _with_stack(reg)
+    for x in astu.walk_no_nested(reg):
+        if isinstance(x, ast.Attribute) and x.attr == "lookup" and isinstance(x.value, ast.Name) and x.value.id == "self" and isinstance(x.ctx, ast.Load):
+            ok = "self._lock" in held_r.get(id(x), [])
+            res.add("labrea.overload.Overloaded.register:read of the table it replaces is under self._lock", ok, om.relpath, x.lineno,
+                    f"held: {held_r.get(id(x), [])}" + ("" if ok else " — the read-modify-write is not atomic: a concurrent registration made between the copy and the assignment is lost"), nec)
     if not any(isinstance(s, (ast.Assign, ast.AugAssign)) and "self.lookup" in ast.unparse(s.targets[0] if isinstance(s, ast.Assign) else s.target) for s in ast.walk(reg)):
         res.add("labrea.overload.Overloaded.register:updates self.lookup", False, om.relpath, reg.lineno, "register no longer assigns self.lookup", nec)
     # the lock is per object and survives pickling by id
